@@ -15,6 +15,10 @@ func main() {
 		fmt.Fprintln(os.Stderr, "usage: seqmc <check> [flags]")
 		os.Exit(2)
 	}
+	if os.Args[1] == "deepchild" {
+		deepChild(os.Args[2:])
+		return
+	}
 	f, ok := checks[os.Args[1]]
 	if !ok {
 		fmt.Fprintln(os.Stderr, "seqmc: unknown check", os.Args[1])
